@@ -63,7 +63,8 @@ class C07(Property):
                   "execution whose leader's call interval contains the caller's join point; fresh exactly for the "
                   "leader; LockedCalls runs each caller's own function exactly once; threads are only ever blocked "
                   "behind their own key, behind a leader that can move (no deadlock, also after a panic); each resource "
-                  "is created successfully at most once and shared. The decidable log checker scan is proved sound "
+                  "is created successfully at most once and shared; a waiter of a finished call stays able to move whatever "
+                  "the other threads do (no lost wake-up) and an arrival on a key nobody executes on leads at once. The decidable log checker scan is proved sound "
                   "(no overlap, blocked only behind own key) and to accept the log of every run of the model. The model "
                   "is tied to core/syncx by forced schedules (gates in the user functions + quiescence detection); the "
                   "two barrier call sites (collection.Cache.Take, cache node Take) are judged on their event logs.")
@@ -76,7 +77,10 @@ class C07(Property):
             "LockedCalls.Do, ResourceManager.GetResource, collection.Cache.Take/Del, cache node Take/TakeWithExpire/"
             "Del/store fault/corrupt entry; results: value, nil, error, not-found, panic), forced schedule = list of "
             "thread ids (all gate-level interleavings for 2 callers and for 3 callers of one key enumerated, random "
-            "otherwise), plus ResourceManager Get/Inject/Close sequences; non-trivial = some thread was observed "
+            "otherwise), plus ResourceManager Get/Inject/Close sequences; 319 fixed cases first: every parking order of "
+            "waiters on 2-3 busy keys x every finisher, 24 held keys + 600 sequential keys, 300 keys held at once by nested "
+            "calls 50 deep in 6 threads, invalidation (Del / Forget-if-any) during a flight with callers before and after, an "
+            "earlier uncontended call followed by a panicking / exiting / failing leader with waiters; non-trivial = some thread was observed "
             "blocked behind another thread's execution / a cache reader got a value it did not load / a GetResource "
             "answered without create; distinct = canonical JSON hash")
     trusted_base = [
